@@ -60,6 +60,8 @@ fn worker(args: &[String]) -> i32 {
         "panic" => engines::worker_panic(&wa),
         "walks" => engines::worker_walks(&wa, Fate::Drop, 6, 3),
         "walks-forget" => engines::worker_walks(&wa, Fate::Forget, 6, 1),
+        "probes" => engines::worker_probes(&wa, &root()),
+        "shared" => engines::worker_shared(&wa),
         "mem" => engines::worker_mem(&wa),
         "mem-big" => engines::worker_mem_big(&wa),
         other => { eprintln!("worker: unknown engine {}", other); return 2; }
@@ -84,6 +86,12 @@ fn exec_case(args: &[String]) -> i32 {
     lruverif::tracked::install_panic_hook(true);
     if let Some(line) = text.lines().find(|l| l.starts_with("memsize")) {
         return match engines::run_mem_line(line) { Ok(_) => 0, Err(_) => 2 };
+    }
+    if text.lines().any(|l| l.starts_with("shared t=")) {
+        return match lruverif::shared::SharedCase::from_text(&text) {
+            Ok(c) => { let o = lruverif::shared::run_shared(&c); if o.failures.is_empty() { 0 } else { 3 } },
+            Err(_) => 2,
+        };
     }
     match Case::from_text(&text) {
         Ok(case) => { let _ = run_case(&case, prop, false); 0 },
@@ -126,6 +134,24 @@ fn replay(args: &[String]) -> i32 {
                 code
             },
             Err(e) => { eprintln!("replay: {}", e); 2 },
+        };
+    }
+    if let Some(line) = text.lines().find(|l| l.starts_with("probe ")) {
+        let get = |k: &str| line.split_whitespace().find_map(|x| x.strip_prefix(k)).map(|s| s.to_string());
+        let id = get("id=").unwrap_or_default();
+        let seed: u64 = get("seed=").and_then(|s| s.parse().ok()).unwrap_or(0);
+        let nestings: usize = get("nestings=").and_then(|s| s.parse().ok()).unwrap_or(4);
+        return match lruverif::probes::run_all(&root(), Path::new("/repo"), seed, nestings) {
+            Err(e) => { eprintln!("replay: inconclusive: {}", e); 2 },
+            Ok(run) => match run.results.iter().find(|r| r.probe.id == id) {
+                None => { eprintln!("replay: no probe {}", id); 2 },
+                Some(r) if r.ok => { println!("replay: probe {} has its expected verdict; property {} held on this case", id, prop); 0 },
+                Some(r) => {
+                    println!("FAILURE {}: {}", id, r.why);
+                    println!("VIOLATION property={} replay={}", prop, path);
+                    1
+                },
+            },
         };
     }
     let case = match Case::from_text(&text) {
@@ -173,8 +199,13 @@ fn jobs_for(prop: &str, thorough: bool) -> Vec<Job> {
     let t = thorough;
     let cache = |asan: bool, q: u32, th: u32| Job { engine: "cache", build: "", asan, workers: 16, cases: if t { th } else { q }, timeout_s: if t { 5400 } else { 900 } };
     match prop {
-        "C01" | "C02" | "C03" | "C04" | "C05" | "C10" | "C11" | "C13" | "C15" | "C19" | "C20" =>
+        "C01" | "C02" | "C03" | "C04" | "C05" | "C10" | "C11" | "C13" | "C15" | "C20" =>
             vec![cache(false, 4000, 12000)],
+        "C19" => vec![
+            cache(false, 4000, 12000),
+            Job { engine: "shared", build: "", asan: false, workers: 16, cases: if t { 1500 } else { 150 }, timeout_s: 3600 },
+            Job { engine: "shared", build: "tsan", asan: false, workers: 16, cases: if t { 1500 } else { 100 }, timeout_s: 3600 },
+        ],
         "C06" | "C07" | "C14" =>
             vec![cache(false, 4000, 12000), cache(true, 600, 3000)],
         "C12" => vec![
@@ -187,6 +218,7 @@ fn jobs_for(prop: &str, thorough: bool) -> Vec<Job> {
             Job { engine: "panic", build: "", asan: false, workers: 16, cases: if t { 1500 } else { 120 }, timeout_s: if t { 5400 } else { 900 } },
             Job { engine: "panic", build: "", asan: true, workers: 16, cases: if t { 400 } else { 30 }, timeout_s: if t { 5400 } else { 900 } },
         ],
+        "C18" => vec![Job { engine: "probes", build: "", asan: false, workers: 1, cases: 0, timeout_s: 1800 }],
         "C08" => vec![
             Job { engine: "mem", build: "", asan: false, workers: 16, cases: if t { 40000 } else { 3000 }, timeout_s: 3600 },
             Job { engine: "mem-big", build: "opt0", asan: false, workers: 14, cases: 0, timeout_s: 1800 },
@@ -231,6 +263,7 @@ fn rule_of(prop: &str) -> &'static str {
         "C15" => "non-trivial = a retain that rejects >= 1 and keeps >= 1 of >= 3 entries; distinct = (length, keep/reject pattern)",
         "C16" => "cases = (state, victim operation, callback kind, n) with a panic injected at the n-th callback of that kind, every n enumerated per state; non-trivial = the victim had already changed something, n >= 2, or the panic came from the closure/predicate; distinct = (victim, callback kind, n class, table rebuilt)",
         "C17" => "non-trivial = an iterator forgotten after >= 1 yielded item on length >= 2, followed by further use; distinct = (iterator kind, length, items yielded)",
+        "C18" => "cases = generated Rust probe programs type-/borrow-checked by rustc against the current tree: generic positive Send/Sync obligations, a witness lacking exactly one trait in each of K, V, S (plain and randomly nested), and for every API returning a reference or borrowing iterator x every conflicting action a use-after program (must be rejected with a borrow error) and its use-before twin (must be accepted); every probe is non-trivial (each has an expected verdict that a regression flips); distinct = probe id",
         "C19" => "non-trivial = a shared-reference operation on a cache with >= 2 entries that hits a non-MRU entry / absent key / full traversal; distinct = (operation, position, key form)",
         "C20" => "non-trivial = an operation on a cache with >= 8 entries; distinct = (operation, evicting, rebuilding, size class)",
         _ => "",
@@ -239,6 +272,9 @@ fn rule_of(prop: &str) -> &'static str {
 
 fn bin_path(asan: bool, build: &str) -> PathBuf {
     let h = root().join("harness");
+    if build == "tsan" {
+        return h.join("target-tsan/x86_64-unknown-linux-gnu/debug/vcheck");
+    }
     if !build.is_empty() {
         return h.join("target").join(build).join("vcheck");
     }
@@ -265,6 +301,7 @@ fn crash_relevant(prop: &str, case_text: &str) -> bool {
         "C14" => case_text.contains("clone"),
         "C16" => case_text.contains("inject"),
         "C17" => case_text.contains("forget"),
+        "C19" => case_text.contains("shared t="),
         _ => false,
     }
 }
@@ -275,6 +312,7 @@ fn crashes(bin: &Path, asan: bool, prop: &str, file: &Path) -> bool {
     if asan {
         cmd.env("ASAN_OPTIONS", "detect_leaks=0:exitcode=77:abort_on_error=0:allocator_may_return_null=1");
     }
+    cmd.env("TSAN_OPTIONS", "halt_on_error=1:exitcode=66:report_signal_unsafe=0");
     match cmd.status() {
         Ok(s) => s.code().map(|c| c != 0 && c != 2 && c != 101).unwrap_or(true),
         Err(_) => false,
@@ -327,6 +365,9 @@ fn orchestrate(args: &[String]) -> i32 {
             if job.asan {
                 cmd.env("ASAN_OPTIONS", "detect_leaks=0:exitcode=77:abort_on_error=0:allocator_may_return_null=1");
             }
+            if job.build == "tsan" {
+                cmd.env("TSAN_OPTIONS", "halt_on_error=1:exitcode=66:report_signal_unsafe=0");
+            }
             match cmd.spawn() {
                 Ok(child) => running.push(Running { child, out, index, started: Instant::now() }),
                 Err(e) => inconclusive.push(format!("cannot start worker: {}", e)),
@@ -360,7 +401,14 @@ fn orchestrate(args: &[String]) -> i32 {
                     let code = s.code();
                     let cur = std::fs::read_to_string(current_file(&r.out)).unwrap_or_default();
                     let stderr_tail = std::fs::read_to_string(tmp.join(format!("job{}-w{}.stderr", jn, r.index)))
-                        .map(|t| t.lines().rev().take(40).collect::<Vec<_>>().into_iter().rev().collect::<Vec<_>>().join("\n")).unwrap_or_default();
+                        .map(|t| {
+                            let lines: Vec<&str> = t.lines().collect();
+                            // the head of a sanitizer report says what happened; otherwise the tail
+                            match lines.iter().position(|l| l.contains("Sanitizer")) {
+                                Some(i) => lines[i..lines.len().min(i + 24)].join("\n"),
+                                None => lines[lines.len().saturating_sub(12)..].join("\n"),
+                            }
+                        }).unwrap_or_default();
                     if code == Some(101) || code == Some(2) || cur.is_empty() {
                         inconclusive.push(format!("worker {} of engine {} failed with status {:?}: {}", r.index, job.engine, code, stderr_tail));
                     }
@@ -421,7 +469,12 @@ fn orchestrate(args: &[String]) -> i32 {
         violation_lines.push(format!("VIOLATION property={} replay={}", prop, path.display()));
         eprintln!("violation: [{}] {}", v.sig, v.msg);
     }
+    let mut crash_sigs: Vec<String> = Vec::new();
     for (body, sig) in &crash_violations {
+        if crash_sigs.contains(sig) {
+            continue;
+        }
+        crash_sigs.push(sig.clone());
         if is_known(&known, prop, sig).is_some() {
             *total.known.entry(sig.clone()).or_insert(0) += 1;
             continue;
@@ -434,6 +487,14 @@ fn orchestrate(args: &[String]) -> i32 {
     for (sig, count) in &total.known {
         let desc = is_known(&known, prop, sig).map(|k| k.description.clone()).unwrap_or_default();
         println!("KNOWN-FINDING: property={} signature={} occurrences={} {}", prop, sig, count, desc);
+    }
+    if total.samples.is_empty() {
+        for v in &total.violations {
+            total.samples.push(v.replay_text.chars().take(600).collect());
+        }
+        for (b, _) in &crash_violations {
+            total.samples.push(b.chars().take(600).collect());
+        }
     }
     let wall = started.elapsed().as_secs_f64();
     let nt = total.nt.len();
@@ -481,6 +542,11 @@ fn orchestrate(args: &[String]) -> i32 {
     }
     if !violation_lines.is_empty() {
         return 1;
+    }
+    for n in &total.notes {
+        if n.starts_with("INCONCLUSIVE") {
+            inconclusive.push(n.clone());
+        }
     }
     if !inconclusive.is_empty() {
         for i in &inconclusive {
